@@ -287,7 +287,7 @@ class Fn:
             return self._STD_VARIANTS[variant]
         return None
 
-    def feasible_blocks_from(self, start_bb):
+    def feasible_blocks_from(self, start_bb, stop_blocks=()):
         """Blocks reachable from the head of `start_bb` when branches on values *constructed on the way* are followed
         consistently: a local assigned `Err(..)` / `Ok(..)` / `true` / `false` on the path keeps that variant through moves,
         `Try::branch`, `discriminant()`, and a switch on it takes only the matching edge.  Everything not tracked is
@@ -404,6 +404,8 @@ class Fn:
                 d, dproj = t["resume_arg"]
                 if not dproj:
                     st.pop(d, None)
+            if bb in stop_blocks and bb != start_bb:
+                continue
             for n in succs:
                 if n not in states:
                     states[n] = dict(st)
